@@ -146,3 +146,33 @@ Proof.
   - left. apply Z.ltb_lt in H. apply Z.eqb_neq. lia.
   - apply andb_true_iff in H. destruct H as [_ H]. right. apply Z.ltb_lt in H. apply Z.eqb_neq. lia.
 Qed.
+
+(* identity when representable (r2 >= r1 and the scaled exponent is in the target's range): the only accepted result is that value *)
+Theorem l2l_exact n1 r1 a n2 r2 sat c s E1 :
+  0 <= r1 <= r2 -> l_decode n1 a = LVal s E1 ->
+  l_emin n2 <= E1 * 2 ^ (r2 - r1) <= l_emax n2 ->
+  l2l_accept n1 r1 a n2 r2 sat c = true -> l_decode n2 c = LVal s (E1 * 2 ^ (r2 - r1)).
+Proof.
+  intros Hr Hd Hrange H. unfold l2l_accept in H. rewrite Hd in H.
+  set (E' := E1 * 2 ^ (r2 - r1)) in *.
+  assert (Hden : 0 < 2 ^ r1) by (apply Z.pow_pos_nonneg; lia).
+  assert (Hnum : E1 * 2 ^ r2 = E' * 2 ^ r1).
+  { unfold E'. rewrite <- Z.mul_assoc, <- Z.pow_add_r by lia. do 2 f_equal. lia. }
+  rewrite Hnum in H. set (den := 2 ^ r1) in *.
+  assert (Hin : (Z.ltb ((2 * l_emin n2 - 1) * den) (2 * (E' * den)) && Z.ltb (2 * (E' * den)) ((2 * l_emax n2 + 1) * den)) = true).
+  { apply andb_true_iff; split; apply Z.ltb_lt; nia. }
+  rewrite Hin in H. cbn [negb andb] in H.
+  destruct (l_decode n2 c) as [| |sc Ec].
+  - rewrite andb_false_r in H. discriminate.
+  - destruct sat; [|discriminate]. apply Z.leb_le in H. nia.
+  - assert (Hok : (Bool.eqb sc s && Z.leb (l_emin n2) Ec && Z.leb Ec (l_emax n2) &&
+                    (Z.leb (Z.abs (2 * (Ec * den - E' * den))) den || (sat && Z.eqb Ec (l_emax n2) && Z.leb (l_emax n2 * den) (E' * den)))) = true)
+      by (destruct sat; exact H).
+    clear H. repeat (apply andb_true_iff in Hok; destruct Hok as [Hok ?]).
+    apply Bool.eqb_prop in Hok. subst sc. f_equal.
+    match goal with Hx : (_ || _) = true |- _ => apply orb_true_iff in Hx; destruct Hx as [Hn | Hm] end.
+    + apply Z.leb_le in Hn. nia.
+    + repeat (apply andb_true_iff in Hm; destruct Hm as [Hm ?]).
+      match goal with Hx : Z.eqb Ec _ = true |- _ => apply Z.eqb_eq in Hx end.
+      match goal with Hx : Z.leb (l_emax n2 * den) _ = true |- _ => apply Z.leb_le in Hx end. nia.
+Qed.
